@@ -11,6 +11,11 @@ CHECKS = {
              note='struct replaced by a pure-Python model validated against the real struct every run; payload contents opaque (UTF-8 validity, payload bytes outside the claim); reserved (negative) ext types outside the value model; oracle = vlib/msgspec.py written from the MessagePack spec.',
              ref='3/C14'),
 }
+CHECKS['C16'] = dict(cat='model_checking', engine='z3-bmc',
+    tech='z3 (QF_BV) bounded model checking with a symbolic schedule + inductive-invariant proof, over a line-level transition system regenerated from the AST of supp/remote.py; counterexample schedules replayed on real threads',
+    text='For each scenario of up to 3 client threads (prepare / first call / close sequences) the schedule is a vector of solver variables; unsat at bound = instruction count means no line-level interleaving violates one-launch / no-exception / all-answered / no-deadlock. An inductive check (Init=>R, R&T=>R, R&final=>safe) with the explicitly enumerated reachable set as candidate invariant gives the same verdict without a bound. Server side: CrossHair over the real Server.run with scripted messages.',
+    note='_run summarised by its Popen/Client assignments (both succeed at once); opaque argument expressions evaluated concretely; line granularity; close() racing a call on another thread is outside; translation validated each run by explicit enumeration and by replaying schedules on real threads with a settrace scheduler; real subprocess/socket behaviour outside.',
+    ref='3/C16')
 NA = {}
 
 def main():
